@@ -327,7 +327,13 @@ impl Format {
                                     Some(pos) => {
                                         // If these are the subseconds, we must convert them to nanoseconds
                                         if prev_token == Token::Subsecond {
-                                            if end_idx - prev_idx != 9 {
+                                            if end_idx - prev_idx > 9 {
+                                                // More digits than there are in a nanosecond
+                                                return Err(HifitimeError::Parse {
+                                                    source: ParsingError::ValueError,
+                                                    details: "invalid subseconds",
+                                                });
+                                            } else if end_idx - prev_idx != 9 {
                                                 decomposed[pos] = val
                                                     * 10_i32.pow((9 - (end_idx - prev_idx)) as u32);
                                             } else {
